@@ -150,6 +150,17 @@ for _var, _file, _ksig, _rsig in (("gnat", GN, r"bool nearestKInternal\(const _T
         UNITS.append(dict(name="c10_%s_%s" % (_var, _h), template="C10/gnat_driver.c", mode="plain", entry="h_" + _h, sources=_src, needs=[_h], flags=PFLAGS, unwind=8, level="bounded", bound="<= 5 tree nodes, exact integer distances",
                           backend="cadical", timeout=600, functions=[("NearestNeighborsGNAT::" if _var == "gnat" else "NearestNeighborsGNATNoThreadSafety::") + _h], canaries=_can))
 
+SQF = "src/ompl/datastructures/NearestNeighborsSqrtApprox.h"
+SQ_RULES = [(r"const std::size_t n = NearestNeighborsLinear<_T>::data_\.size\(\);", "const size_t n = data__size;", 0), (r"NearestNeighbors<_T>::distFun_\(NearestNeighborsLinear<_T>::data_\[i\], data\)", "distIdx(i)", 0),
+            (r"return NearestNeighborsLinear<_T>::data_\[pos\];", "return pos;", 0), (r'throw Exception\("[^"]*"\);', "{ EXC(); return 0; }", 0), (r"std::size_t", "size_t", 0),
+            (r"NearestNeighborsLinear<_T>::clear\(\);", "base_clears++; data__size = 0;", 0)]
+SQ_SRC = [dict(name="sq_nearest", file=SQF, sig=r"_T nearest\(const _T &data\) const override", rules=SQ_RULES, loops={"allow_uncontracted": True}),
+          dict(name="sq_clear", file=SQF, sig=r"void clear\(\) override", rules=SQ_RULES, loops={})]
+UNITS.append(dict(name="c10_sqrtapprox_nearest", template="C10/sqrtapprox.c", mode="plain", entry="h_sq_nearest", sources=SQ_SRC, needs=["sq_nearest"], flags=PFLAGS + ["--unsigned-overflow-check"], unwind=8, level="bounded", bound="<= 6 stored elements, <= 4 checks",
+                  backend="cadical", timeout=300, functions=["NearestNeighborsSqrtApprox::nearest"], canaries=[dict(name="keeps_the_farthest_inspected", where="body:sq_nearest", rx=r"dmin > distance", repl="dmin < distance")]))
+UNITS.append(dict(name="c10_sqrtapprox_clear", template="C10/sqrtapprox.c", mode="plain", entry="h_sq_clear", sources=SQ_SRC, needs=["sq_clear"], flags=PFLAGS, level="proof", backend="minisat", timeout=300, functions=["NearestNeighborsSqrtApprox::clear"],
+                  canaries=[dict(name="offset_survives_clear", where="body:sq_clear", rx=r"offset_ = 0;", repl=";")]))
+
 ASSUMPTIONS = ["GNAT pruning: distances are exact integers standing for reals (linear rule: valid over the reals iff over the integers; rounding not modelled); the range/radius envelopes contain the true pivot-to-element distances (the structure invariant maintained by add/split, assumed here); the metric satisfies the triangle inequality",
                "elements are addressed by slot; the distance function returns a fixed non-NaN value per element; std::sort is an assumed contract (result ordered by the comparator)", "<= 64 stored elements"]
 TRUSTED = ["extraction rewrite table of units/C10.py", "stubs in units/C10/linear.c", "CBMC 6.11 DFCC + cadical"]
